@@ -1,9 +1,13 @@
 /-
   Driver.PaddingD — line-protocol handlers for Model.Padding / Spec.Padding (C09).
 
-    pad.iter   <scheme> <B> [w|h] | x<msg> <bitlen|None> <T|F> | …     history of iterblocks calls on one object
-        result: per call `x<block>:<bitcnt>,<padcnt>,<padflag>;…=<final state>` (`!` before `=` when the call
-        raised), calls joined by `|`; `ERR` when the constructor refuses
+    pad.iter   <scheme> <B> [w|h] | <step> | …     history of steps on one object (Model.Padder.runSteps); a step is
+          x<msg> <bitlen|None> <T|F>   an iterblocks call:  `x<block>:<bitcnt>,<padcnt>,<padflag>;…=<final state>`
+                                       (`!` before `=` when the call raised)
+          reset  |  new                obj.reset() / obj.new:  `R=<state>`
+          remove [x<bytes>]            obj.remove(c), c defaulting to the concatenation of the blocks emitted since the
+                                       last reset:  `Mx<bytes>=<state>` or `M!=<state>` when it raised
+        results joined by `|`; `ERR` when the constructor refuses
     pad.cat    <scheme> <B> [w|h] x<msg> <bitlen|None>      concatenation of one padded call    spec: Spec pad
     pad.rt     <scheme> <B> [w|h] x<msg> <bitlen|None>      remove(concat) on the same object   spec: the message
     pad.remove <scheme> <B> [w|h] x<bytes>                  remove on a fresh object            spec: PKCS#7/X9.23 unpad
@@ -52,15 +56,25 @@ def fmtIter (r : IterResult) : String :=
   ";".intercalate (r.yields.map fun (b, st) => fmtBytes b ++ ":" ++ fmtState st)
     ++ (if r.err.isSome then "!" else "") ++ "=" ++ fmtState r.final
 
-def runCalls (p : Padder) : PadState → List (List String) → List String → Option (List String)
-  | _, [], acc => some acc.reverse
-  | st, c :: rest, acc =>
-    match c with
-    | [m, l, f] => do
-        let m ← parseBytes? m; let l ← parseOptNat? l; let f ← parseBool? f
-        let r := p.iterblocks st m l f
-        runCalls p r.final rest (fmtIter r :: acc)
-    | _ => none
+def parseSteps? : List (List String) → Option (List PadStep)
+  | [] => some []
+  | c :: rest => do
+    let st ← (match c with
+      | [m, l, f] => do
+          let m ← parseBytes? m; let l ← parseOptNat? l; let f ← parseBool? f
+          pure (PadStep.call m l f)
+      | ["reset"] | ["new"] => some .reset
+      | ["remove"] => some (.remove none)
+      | ["remove", c] => do let c ← parseBytes? c; pure (.remove (some c))
+      | _ => none)
+    let rest ← parseSteps? rest
+    pure (st :: rest)
+
+def fmtStep : PadStepResult → String
+  | .iter r => fmtIter r
+  | .state st => "R=" ++ fmtState st
+  | .removed (.ok b) st => "M" ++ fmtBytes b ++ "=" ++ fmtState st
+  | .removed (.error _) st => "M!=" ++ fmtState st
 
 /-- is the bit length meaningful for the scheme (byte-granular schemes ignore or misuse it: no spec then) -/
 def bitGranular : Spec.Padding.Scheme → Bool
@@ -80,8 +94,8 @@ def model (op : String) (args : List String) : Option (String × String) :=
         match p with
         | .error _ => pure ("ERR", "-")
         | .ok p => do
-            let r ← runCalls p {} calls []
-            pure ("|".intercalate r, "-")
+            let steps ← parseSteps? calls
+            pure ("|".intercalate ((p.runSteps {} [] steps).map fmtStep), "-")
     | [] => none
   | "pad.cat" | "pad.rt" =>
     match args.reverse with
